@@ -47,9 +47,13 @@ func (f sthFacts) resigned(signer *logKey) sthFacts {
 	return g
 }
 
-func one200(name string, body []byte) variant { return variant{name, []wireItem{resp(200, body, name)}} }
+func one200(name string, body []byte) variant {
+	return variant{name, []wireItem{resp(200, body, name)}}
+}
 
-func (f sthFacts) genuine(name string) variant { return one200(name, sthJSON(f.size, f.ts, f.root, f.ds)) }
+func (f sthFacts) genuine(name string) variant {
+	return one200(name, sthJSON(f.size, f.ts, f.root, f.ds))
+}
 
 // forged: the signature bytes of f under other fields
 func (f sthFacts) forged(r randT, name string, mut int, other sthFacts) variant {
@@ -144,7 +148,7 @@ type sctFacts struct {
 
 func newSCTFacts(r randT, fx *fixtures, signer *logKey, chain string, precert bool) sctFacts {
 	ch := fx.chain(chain)
-	f := sctFacts{chain: ch, precert: precert, e: deriveEntry(ch.certs, precert), ts: pickU64(r), ext: randBytes(r, r.Intn(2)*3)}
+	f := sctFacts{chain: ch, precert: precert, e: entryOf(ch, precert), ts: pickU64(r), ext: randBytes(r, r.Intn(2)*3)}
 	f.ds = signer.signDS(rfcSCTInput(f.ts, f.e, f.ext), 4)
 	return f
 }
